@@ -1,5 +1,6 @@
 import MuscleModel.Props.C06
 import MuscleModel.Engines.Srv
+import MuscleModel.Reflector.OrderProofs
 
 /-!
 # C07 — One client's traffic can never hang or crash the server
@@ -65,5 +66,90 @@ theorem witness_pong_history (sv : Server) (hist : List (Nat × Cmd)) (b : Nat) 
   obtain ⟨t1, ht1⟩ := hkeep
   obtain ⟨t2, ht2, hin⟩ := ping_answered _ b t1 tag ht1
   exact ⟨t2, ht2, by simp [hin]⟩
+
+end Muscle.Props.C07
+
+/-!
+# C07, second part — what is queued for a client is never removed or reordered
+
+Lemmas: `Reflector/OrderProofs.lean` (prefix `od_`).  Every theorem holds for EVERY server state.
+`OdEv` / `odRunEv` / `odRunEvs` (OrderProofs.lean): histories of events `cmd sid c | push | attach slot host | detach sid`.
+-/
+
+namespace Muscle.Props.C07
+open Muscle Muscle.Reflector Muscle.Eng.SrvEngine
+
+/-- **Append-only, one command.**  Whatever command any session runs, the session table keeps its length and order,
+    and every session's inbox afterwards is its inbox before followed by `extra`: nothing already queued for a
+    client is removed or reordered. -/
+theorem inbox_append_only (sv : Server) (sid : Nat) (c : Cmd) :
+    (runCmd sv sid c).sessions.length = sv.sessions.length ∧
+    ∀ (i : Nat) (t : Sess), sv.sessions[i]? = some t →
+      ∃ t' extra, (runCmd sv sid c).sessions[i]? = some t' ∧ t'.sid = t.sid ∧ t'.inbox = t.inbox ++ extra := by
+  have h := od_runCmd sv sid c
+  refine ⟨SessAll₂.length _ _ h, fun i t ht => ?_⟩
+  obtain ⟨t', h1, h2, e, h3, _⟩ := SessAll₂.get _ _ h i t ht
+  exact ⟨t', e, h1, h2, h3⟩
+
+/-- the same through the lookup by session id -/
+theorem inbox_append_only_lookup (sv : Server) (sid : Nat) (c : Cmd) (b : Nat) (t : Sess) (ht : sv.sess? b = some t) :
+    ∃ t' extra, (runCmd sv sid c).sess? b = some t' ∧ t'.inbox = t.inbox ++ extra := by
+  obtain ⟨t', h1, _, e, h3, _⟩ := od_lookup (od_runCmd sv sid c) b t ht
+  exact ⟨t', e, h1, h3⟩
+
+/-- `pushAll` (`PushSubscriptionMessages`) only appends -/
+theorem inbox_append_only_push (sv : Server) (b : Nat) (t : Sess) (ht : sv.sess? b = some t) :
+    ∃ t' extra, (pushAll sv).sess? b = some t' ∧ t'.inbox = t.inbox ++ extra := by
+  obtain ⟨t', h1, _, e, h3, _⟩ := od_lookup (od_pushAll sv) b t ht
+  exact ⟨t', e, h1, h3⟩
+
+/-- a new session attaching only appends to the inboxes of the sessions already there -/
+theorem inbox_append_only_attach (sv : Server) (slot : Nat) (host : Bytes) (b : Nat) (t : Sess) (ht : sv.sess? b = some t) :
+    ∃ t' extra, (attach sv slot host).1.sess? b = some t' ∧ t'.inbox = t.inbox ++ extra := by
+  obtain ⟨t', h1, _, e, h3, _⟩ := od_lookup_attach sv slot host b t ht
+  exact ⟨t', e, h1, h3⟩
+
+/-- the departure of ANOTHER session only appends -/
+theorem inbox_append_only_detach (sv : Server) (x b : Nat) (hb : b ≠ x) (t : Sess) (ht : sv.sess? b = some t) :
+    ∃ t' extra, (detach sv x).sess? b = some t' ∧ t'.inbox = t.inbox ++ extra := by
+  obtain ⟨t', h1, _, e, h3, _⟩ := od_lookup_detach sv x b hb t ht
+  exact ⟨t', e, h1, h3⟩
+
+/-- **Append-only, histories.**  After any history of commands of any sessions, pushes, attaches and departures of
+    other sessions, session `b` is still there and its inbox extends the inbox it had. -/
+theorem inbox_append_only_history (sv : Server) (evs : List OdEv) (b : Nat) (hb : ∀ e ∈ evs, e ≠ .detach b)
+    (t : Sess) (ht : sv.sess? b = some t) :
+    ∃ t' extra, (odRunEvs sv evs).sess? b = some t' ∧ t'.inbox = t.inbox ++ extra := by
+  obtain ⟨t', h1, _, e, h3, _⟩ := od_lookup_evs evs b hb sv t ht
+  exact ⟨t', e, h1, h3⟩
+
+/-- the history form used by `witness_pong_history` (commands only) -/
+theorem inbox_append_only_cmds (sv : Server) (hist : List (Nat × Cmd)) (b : Nat) (t : Sess) (ht : sv.sess? b = some t) :
+    ∃ t' extra, (hist.foldl (fun sv p => runCmd sv p.1 p.2) sv).sess? b = some t' ∧ t'.inbox = t.inbox ++ extra := by
+  have key : ∀ (hist : List (Nat × Cmd)) (sv : Server) (t : Sess), sv.sess? b = some t →
+      ∃ t', (hist.foldl (fun sv p => runCmd sv p.1 p.2) sv).sess? b = some t' ∧ InboxExt AnyLine t t' := by
+    intro hist
+    induction hist with
+    | nil => intro sv t ht; exact ⟨t, ht, InboxExt.refl AnyLine t⟩
+    | cons p r ih =>
+      intro sv t ht
+      obtain ⟨t1, h1, e1⟩ := od_lookup (od_runCmd sv p.1 p.2) b t ht
+      obtain ⟨t2, h2, e2⟩ := ih (runCmd sv p.1 p.2) t1 h1
+      exact ⟨t2, h2, e1.trans e2⟩
+  obtain ⟨t', h1, _, e, h3, _⟩ := key hist sv t ht
+  exact ⟨t', e, h1, h3⟩
+
+/-! Non-vacuity: a reachable state with two sessions; session 0 broadcasts, session 1 pings, session 0 broadcasts again:
+    session 1's inbox only grows. -/
+def exOdSv0 : Server := (attach (attach {} 0 [104]).1 1 [104]).1
+def exOdEvs : List OdEv := [.cmd 0 (.send 7 []), .cmd 1 (.ping 3), .push, .cmd 0 (.send 8 [])]
+
+example : ∀ e ∈ exOdEvs, e ≠ OdEv.detach 1 := by
+  intro e he
+  simp only [exOdEvs, List.mem_cons, List.not_mem_nil, or_false] at he
+  rcases he with rfl | rfl | rfl | rfl <;> exact fun h => OdEv.noConfusion h
+example : (exOdSv0.sess? 1).map (·.inbox) = some [] := by decide
+example : ((odRunEvs exOdSv0 exOdEvs).sess? 1).map (·.inbox) =
+    some ["MSG 1234 from=0 tag=7", "PONG 3", "MSG 1234 from=0 tag=8"] := by decide
 
 end Muscle.Props.C07
